@@ -476,6 +476,10 @@ def p4(rep, w):
                     if g[0].endswith('::ObjHashMap') and strip_generics(cn).rsplit('::', 1)[-1] in KEYED_MAP_OPS + ('extend',) and \
                             x in ('yarel::<value::Value as std::cmp::PartialEq>::eq', 'yarel::<value::Value as std::hash::Hash>::hash'):
                         continue
+                    if g[0].endswith('::ObjHashMap') and _closure_over_validated_keys(w, f, x, direct):
+                        # a closure of this function that can only see values which validate_hash_map_key accepted (an error message quoting
+                        # the key): a hashable value is not and does not contain a map (C12 H1 / H2), so showing it borrows no ObjHashMap
+                        continue
                     for (T, k) in sorted(trans.get(x, ())):
                         if T == g[0] and 'mut' in (g[1], k):
                             confl.setdefault(strip_generics(cn).rsplit('::', 1)[-1], (b, '%s can borrow a %s (%s)' % (x, T.rsplit('::', 1)[-1], k)))
@@ -493,6 +497,33 @@ def p4(rep, w):
     for k in exc:
         if k not in used:
             r.note('table entry no longer needed: %s' % k)
+
+
+def _closure_over_validated_keys(w, f, x, direct):
+    g = w.fns.get(x)
+    if g is None or g.kind != 'Closure' or g.parent != f.path or direct.get(x):
+        return False
+    org = None
+    found = False
+    for b in f.blocks:
+        for s_ in b['s']:
+            rr = s_.get('r', {})
+            if rr.get('rv') == 'agg' and rr.get('closure') == x:
+                found = True
+                if org is None:
+                    org = origins(f)
+                for o in rr['ops']:
+                    pl = op_place(o)
+                    if pl is None:
+                        continue
+                    ts = f.crate.tstr(f.local_ty(pl['l']))
+                    if 'Value' in ts and not any(m in ts for m in ('Vm', 'Gc<', 'Root<', 'RefCell')):
+                        roots = org.get(pl['l'], ())
+                        if not roots or not all(q[0][0] == 'call' and q[0][2].endswith('validate_hash_map_key') for q in roots):
+                            return False
+                    elif any(m in ts for m in ('Vm', 'Gc<', 'Root<', 'RefCell', 'Value')):
+                        return False
+    return found
 
 
 def diverges(f, b, depth=0):
